@@ -11,7 +11,7 @@
 #include "messageq.c"
 
 #define MAXD 32
-#define ARENA_MAX (MAXD * 12 + 16)
+#define ARENA_MAX (MAXD * 65535 + 16)	/* message sizes up to the 16-bit limit of the descriptor */
 
 /* the storage: [canary 64][ depth*msg_len | slack ] flush against a guard page */
 static uint8_t *arena_end;		/* first byte of the guard page */
@@ -52,6 +52,9 @@ static int kth_claimed(int k)
 	return -1;
 }
 static uint8_t pat(int slot, int i) { return (uint8_t)(0xA0 + slot * 7 + i * 13); }
+/* payload bytes that are written and checked: all of a small message, both ends of a large one */
+#define PAYLOAD_IDX(i, M) ((M) <= 16 ? (i) : (i) < 4 ? (i) : (M) - 8 + (i))
+#define PAYLOAD_N(M) ((M) <= 16 ? (M) : 8)
 
 static int op_enabled(int op)
 {
@@ -83,7 +86,7 @@ static int check_memory(void)
 		for (int i = 0; i < 64; i++) if (base[D * M + S + i] != 0xC5) { vx_bfs_fail("guard", "byte %d after the storage was modified", i); return 1; }
 	/* payload of every owned (claimed/sent/held) slot must be what its owner wrote */
 	for (int s = 0; s < D; s++) if (L.status[s] != FREE)
-		for (int i = 0; i < M; i++) if (base[s * M + i] != pat(s, i)) { vx_bfs_fail("payload", "payload byte %d of slot %d changed while owned", i, s); return 1; }
+		for (int j = 0; j < PAYLOAD_N(M); j++) { int i = PAYLOAD_IDX(j, M); if (base[s * M + i] != pat(s, i)) { vx_bfs_fail("payload", "payload byte %d of slot %d changed while owned", i, s); return 1; } }
 	return 0;
 }
 
@@ -91,7 +94,7 @@ static int op_apply(int op)
 {
 	void *p; long s; int exp;
 	/* the storage is not part of the snapshot: rebuild it from the model (owned slots carry their pattern) */
-	for (int k = 0; k < D; k++) for (int i = 0; i < M; i++) base[k * M + i] = L.status[k] != FREE ? pat(k, i) : 0;
+	for (int k = 0; k < D; k++) for (int j = 0; j < PAYLOAD_N(M); j++) { int i = PAYLOAD_IDX(j, M); base[k * M + i] = L.status[k] != FREE ? pat(k, i) : 0; }
 	if (!(VX_TRY)) { VX_END; vx_bfs_fail("fault", "%s", vx_fault_msg); return 1; }
 	if (op == OP_CLAIM) {
 		exercised[0]++;
@@ -108,7 +111,7 @@ static int op_apply(int op)
 		if (exp >= 0) {
 			if (L.status[exp] != FREE) { VX_END; vx_bfs_fail("claim-dup", "claim handed out slot %d which is still owned", exp); return 1; }
 			L.status[exp] = CLAIMED; L.c = (uint8_t)((L.c + 1) % D);
-			for (int i = 0; i < M; i++) base[exp * M + i] = pat(exp, i);
+			for (int j = 0; j < PAYLOAD_N(M); j++) { int i = PAYLOAD_IDX(j, M); base[exp * M + i] = pat(exp, i); }
 		}
 	} else if (op == OP_RECEIVE) {
 		exercised[1]++;
@@ -120,7 +123,7 @@ static int op_apply(int op)
 	} else if (op == OP_RELEASE) {
 		exercised[2]++;
 		messageq_release(&L.mq, base + L.h * M);
-		memset(base + L.h * M, 0, (size_t)M);
+		for (int j = 0; j < PAYLOAD_N(M); j++) base[L.h * M + PAYLOAD_IDX(j, M)] = 0;
 		L.status[L.h] = FREE; L.h = (uint8_t)((L.h + 1) % D);
 	} else {
 		exercised[3]++;
@@ -144,7 +147,7 @@ static void prep_arena(int use_static)
 {
 	if (use_static) { memset(static_arena, 0xC5, sizeof(static_arena)); base = STATIC_BASE; }
 	else { base = arena_end - (D * M + S); memset(base - 64, 0xC5, 64); }
-	memset(base, 0, (size_t)(D * M)); memset(base + D * M, 0x5C, (size_t)S);
+	memset(base, 0, (size_t)D * (size_t)M); memset(base + (size_t)D * (size_t)M, 0x5C, (size_t)S);
 }
 static void setup(const geom_t *g, int use_static)
 {
@@ -176,7 +179,7 @@ static int geom_selected(const geom_t *g)
 {
 	if (vx_thorough()) return 1;
 	/* quick: every depth with msg_len 4 / slack 0 and 3; all message sizes at a few depths */
-	if (g->m == 4) return 1;
+	if (g->m == 4 || g->m > 12) return 1;	/* the large message sizes are few: always */
 	return g->d <= 3 || g->d == 8 || g->d == 31 || g->d == 32;
 }
 
